@@ -215,11 +215,6 @@ def _unpack_stack(scope, only_errors=True):
     while LAST_CHILD_SCOPE in scope:
         child = scope[LAST_CHILD_SCOPE]
         branches = scope[CHILD_ERRORS]
-        if NO_PYFRAME in scope and CUR_ERROR in scope:
-            # (a lazily raised error that a later step recovered from stays
-            # recorded here, nothing forgives it: keep what took part in this error)
-            branches = [b for b in branches if b is child
-                        or b.maps[0].get(CUR_ERROR) is scope[CUR_ERROR]]
         if len(branches) == 1 and branches[0] is child:
             branches = []  # if there's only one branch, count it as linear
         stack.append([scope, scope[Spec], scope[T], scope.get(CUR_ERROR), branches])
@@ -2451,6 +2446,13 @@ def chain_child(scope):
     # previous failed branches are forgiven as the
     # scope is re-wired into a new stack
     del nxt_in_chain.maps[0][CHILD_ERRORS][:]
+    # (so are failures raised lazily while that step ran - an Iter consumed by
+    # it - which are recorded on the chained scopes above: the chain goes on,
+    # so the step recovered from them)
+    up = scope
+    while NO_PYFRAME in up.maps[0] and len(up.maps) > 1:
+        del up.maps[0][CHILD_ERRORS][:]
+        up = up[UP]
     # a mode set by the previous step (Fill, Match, ...) applies to that step only
     nxt_in_chain.maps[0][MODE] = scope.maps[0][MODE]
     return nxt_in_chain
